@@ -19,7 +19,7 @@ func runC11(e *env) {
 	if e.thorough() {
 		n = 300
 	}
-	prof := profile{Unions: true, Structs: true, NamedBasics: true, Containers: true, Enums: true, SubPkg: true, Recursive: true, ModShape: 3}
+	prof := profile{Unions: true, Structs: true, NamedBasics: true, Containers: true, Enums: true, SubPkg: true, Recursive: true, ModShape: 3, SiblingMembers: true}
 	for i := 0; i < n; i++ {
 		specs = append(specs, synthModule(e.r, prof, i))
 	}
